@@ -166,12 +166,16 @@ Pattern(name, a, r) ==
     [] name = "ack_interrupt" -> Len(acc) = 1 /\ IsR(acc[1], "isr", 0, 1) /\ r.v = acc[1].v[1]
     [] name = "read_config_generation" -> Len(acc) = 1 /\ IsR(acc[1], "common", 21, 1) /\ r.v = acc[1].v[1]
     [] name \in {"read_config", "write_config"} ->
+         \* C13: success only wholly inside the window, touching exactly those bytes; failure only
+         \* outside its whole 32-bit words (the transport views the window as words, so an access
+         \* into a trailing partial word may be refused, but never one inside the whole words)
          IF ~pdev.has_cfg THEN ~r.ok /\ r.err = "ConfigSpaceMissing" /\ acc = <<>>
-         ELSE IF ~a.huge /\ a.off + a.size <= pdev.cfg_len
-         THEN /\ r.ok
+         ELSE IF r.ok
+         THEN /\ ~a.huge /\ a.off + a.size <= pdev.cfg_len
               /\ Touched = { a.off + k : k \in 0..a.size - 1 }
               /\ \A i \in 1..Len(acc) : acc[i].sp = "devcfg" /\ acc[i].rw = (IF name = "read_config" THEN "r" ELSE "w")
-         ELSE ~r.ok /\ r.err = "ConfigSpaceTooSmall" /\ acc = <<>>
+         ELSE /\ ~(~a.huge /\ a.off + a.size <= (pdev.cfg_len \div 4) * 4)
+              /\ r.err = "ConfigSpaceTooSmall" /\ acc = <<>>
     [] OTHER -> FALSE
 
 OpEnd(r) == op # NoOp /\ Pattern(op.name, op, r) /\ op' = NoOp /\ acc' = <<>> /\ UNCHANGED <<pcfg, maps, pdev, selected>>
